@@ -59,7 +59,7 @@ class VerilogReservedKeywordError( Exception ):
   """SystemVerilog reserved keyword error."""
   def __init__( self, name, msg ):
     return super().__init__(
-      f"- {name} is a SystemVerilog reserved keyword!\n- {msg}" )
+      f"- {name} is a SystemVerilog reserved keyword or not a legal identifier!\n- {msg}" )
 
 class VerilogCloseLoopPurePythonSimError( Exception ):
   """SystemVerilog closed loop test error during pure python simulation."""
